@@ -95,6 +95,10 @@ def run(tier, replay=None):
     others = sorted({v["prop"] for v in allv if v["prop"] != "C11"})
     # a mapped call that does not complete with exactly its keys is a C11 matter too
     for v in allv:
+        # (map_dyn_static returns wrong values even when every notification is routed correctly:
+        # the recorded C01 finding about nested mapped calls; only its routing is judged here)
+        if v["prop"] != "C11" and "(program map_dyn_static," in v["what"]:
+            continue
         if v["prop"] == "C11" or (v["prop"] in ("C03", "C01") and "unforked-merge" not in v["what"] and "ghost" not in v["what"]):
             viols.append(dict(v, key=v["key"].replace(v["prop"] + ":", "C11:e2e:", 1)))
     # 3. stale attempts: a job fails, mrp exits, other jobs survive as orphans and
